@@ -15,3 +15,5 @@ CONSTANTS
   PartFix = TRUE
   SubAt = "first"
   SyncSteps = FALSE
+  StallSteps = FALSE
+  SkipSeenByListing = FALSE
